@@ -1,4 +1,6 @@
 import BU.Properties.C16
+#print axioms C16.toBytes_shape'
+#print axioms C16.toBytes_shape
 #print axioms C16.size_eq
 #print axioms C16.vsize_eq
 #print axioms C16.vsize_legacy
